@@ -23,6 +23,8 @@ var zzC10Pool = []zzC10Pat{
 	{p: "/l/it", live: true},
 	{p: "/m/{-g}/t", live: true},
 	{p: "/f/{r:[a-c]+}.h", live: true},
+	{p: "/q/{id:\\d+}", live: true}, // a regexp parameter that ends the pattern (value + suffix may be empty)
+	{p: "/s"},                       // its methods were removed by name; the node stays because /s/j lives below it
 	{p: "/p/a"},        // exists only as an inner node of the tree (between /p/au and /p/ab)
 	{p: "/zz/{q}"},     // never registered
 	{p: "/i/{n:digit}"}, // prefix of a live route
@@ -30,6 +32,8 @@ var zzC10Pool = []zzC10Pat{
 	{p: "/{a}{b}", malformed: true, keys: []string{"a", "b"}},
 	{p: "/{a}/{a}", malformed: true, keys: []string{"a"}},
 	{p: "/r/{z:[}", malformed: true, keys: []string{"z"}},
+	{p: "/{a:\\d+}{b}", malformed: true, keys: []string{"a", "b"}},
+	{p: "/{a:digit}{b}", malformed: true, keys: []string{"a", "b"}},
 }
 
 func zzC10Router(domain string) *Router[*hnd] {
@@ -48,6 +52,9 @@ func zzC10Router(domain string) *Router[*hnd] {
 	}
 	r.Handle("/p/au", &hnd{id: 90}, nil, "GET")
 	r.Handle("/p/ab", &hnd{id: 91}, nil, "GET")
+	r.Handle("/s", &hnd{id: 92}, nil, "GET")
+	r.Handle("/s/j", &hnd{id: 93}, nil, "GET")
+	r.Remove("/s", "GET")
 	return r
 }
 
